@@ -7,6 +7,22 @@ props = [json.loads(l) for l in open(os.path.join(ROOT, "properties.jsonl"))]
 TECH = "explicit TLA+ specification checked with TLC; TLC-generated behaviours replayed into the real code; recorded traces validated by TLC against the same specification"
 
 CLAIMED = {
+ "C01": dict(
+   text="Stream.tla states the contract of C01 over the events observable at two endpoints (application calls and results, STREAM frames emitted with offset/length/FIN, deliveries and their results, reads) and MC_Stream.tla, the design (per-byte colour map, FIN state, lossy/duplicating/reordering frame network, reassembly, reader), is model-checked against it: safety in every reachable state, the monitor accepts every behaviour of the design, and under fair scheduling with finitely many losses everything written and the end of stream are read. Environment schedules enumerated by TLC (Gen_Stream, all paths to a fixed depth for four flow kinds and blocking windows) plus seeded random long schedules (0-RTT, hostile injected frames, resets, stop-sending, all six flow-control parameters on both sides) are executed on two real DataStreams endpoints with real FlowController/Parameters; every recorded event is judged by TLC against Stream.tla and every run ends with a fair finish after which all written bytes must have been read, flushed and the end of stream reported.",
+   note="TLC, JSON trace I/O; payload bytes are compared by the harness against position-determined content (data_ok); frames, not packets, are the unit of loss here (the full stack is C02).",
+   ref="DESIGN.md §4 C01"),
+ "C11": dict(
+   text="Stream.tla carries the flow-control contract (per-kind initial windows written once from RFC 9000 18.2, connection credit charged exactly once per fresh byte, credit returned, advertised limits monotone, data beyond a limit answered with FLOW_CONTROL_ERROR); MC_Stream checks the monitor against the design; TLC-enumerated and seeded random schedules (all combinations of the six parameters incl. zero and unequal uni/bidi values, both roles, 0-RTT with remembered parameters accepted/rejected, MAX_DATA / MAX_STREAM_DATA updates, hostile frames beyond limits) are executed on two real DataStreams + FlowController + Parameters and every recorded frame / credit value / delivery result is judged by TLC.",
+   note="TLC, JSON trace I/O. Connection credit is observed through ArcSendControler::credit after every packet assembly.",
+   ref="DESIGN.md §4 C11"),
+ "C12": dict(
+   text="Stream.tla carries the stream-count / direction / final-size contract (consecutive local ids never beyond the peer's limit, implicit opening offers each lower stream exactly once in order, STREAM_LIMIT / STREAM_STATE / FINAL_SIZE errors for peer misuse, advertised MAX_STREAMS monotone); schedules enumerated by TLC and seeded random schedules with hostile frames (arbitrary stream ids, offsets, lengths, FIN bits, RESET_STREAM, STOP_SENDING, MAX_STREAM_DATA) are executed on two real DataStreams endpoints for both roles and all stream-count parameters incl. 0, and every recorded result is judged by TLC. Two recorded findings (stream-limit off-by-one asserted by a unit test; data sent beyond a limit revised by a rejected 0-RTT) are reported as KNOWN-FINDING.",
+   note="TLC, JSON trace I/O; concurrency strategy ConsistentConcurrency (the one the connection builder uses by default).",
+   ref="DESIGN.md §4 C12"),
+ "C14": dict(
+   text="LocalCids.tla (issuing, peer limit, retirement and replacement, two connections on one shared router with a complete routing snapshot after every call) and RemoteCids.tla (peer ids in any order with duplicates and retire-prior-to, paths applying / borrowing / releasing / being abandoned, RETIRE frames per call) are model-checked; every call sequence TLC enumerates to a fixed depth is executed on the real ArcLocalCids + QuicRouter and ArcRemoteCids and each recorded step is validated by TLC. One recorded finding (active-id count off by one in recv_new_cid_frame).",
+   note="TLC, JSON trace I/O, the read-only router lookup hook.",
+   ref="DESIGN.md §4 C14"),
  "C07": dict(
    text="SentJournal.tla (a packet assembly is one critical section; complete, trivial and abandoned assemblies interleaved with ack processing) is model-checked for PnNeverReused and every call sequence to a fixed depth is executed on the real ArcSentJournal and validated by TLC; PnCodec.tla is checked exhaustively by TLC for scaled widths, and boundary/random triples through the real PacketNumber::encode/decode (via the wire format) are validated field by field by TLC at the real widths (values < 2^30) and by the round-trip identity up to 2^62.",
    note="TLC integers are 32-bit: 32-bit-wide truncation and numbers >= 2^31 are judged by decoded = pn only; receiver's expected number in (largest_acked, pn].",
